@@ -12,10 +12,63 @@ NEUTRAL_REF = [
 ]
 
 
+def neutral_predicate_rows(check, repo):
+    """EccPoint.is_point_at_infinity / point_at_infinity / EccXPoint.is_point_at_infinity: the predicate is true for
+    the neutral element of the curve model and for no other point - in particular not for the other points that share
+    a coordinate with it (Edwards: (0, -1) has x = 0 and order 2; Weierstrass: (0, y) are ordinary points)."""
+    from ..absint import Interp
+    from ..absstate import State
+    PT = "Crypto.PublicKey._point"
+    mod = repo.module(PT)
+    cls = repo.cls(mod, "EccPoint")
+    fn = repo.func(mod, "EccPoint.is_point_at_infinity")
+    p = (1 << 255) - 19
+    rows = [("edwards", (0, 1), True), ("edwards", (0, p - 1), False), ("edwards", (5, 1), False), ("edwards", (1, 0), False), ("edwards", (p - 1, 0), False),
+            ("edwards", (3, 7), False),
+            ("weierstrass", (0, 0), True), ("weierstrass", (0, 5), False), ("weierstrass", (5, 0), False), ("weierstrass", (3, 7), False)]
+    wrong = []
+    for kind, (x, y), want in rows:
+        it = Interp(repo, max_depth=3)
+        st = State()
+        me = it.new_obj(st, mod, cls, havoc=False)
+        curve = it.new_obj(st, label="curve", attrs={"is_edwards": kind == "edwards", "is_weierstrass": kind == "weierstrass", "is_montgomery": False})
+        st.heap[me.ident].update({"_curve": curve, "curve": kind})
+        it.inject = {"self.x": x, "self.y": y, "self.xy": (x, y)}
+        res = it.run(mod, fn, {}, self_obj=me, state=st)
+        rets = res.returns()
+        got = rets[0].value if len(rets) == 1 and not res.raises() else "<%d exits, raises %s>" % (len(rets), res.raise_classes())
+        if got is not want:
+            wrong.append("%s point (%s, %s): %r" % (kind, "p-1" if x == p - 1 else x, "p-1" if y == p - 1 else y, got))
+    check.ob("K-pw", "K-pw|neutral.predicate", not wrong, mod.path, fn.lineno,
+             extracted="; ".join(wrong) if wrong else "%d (curve model, point) rows: true exactly for (0, 1) on Edwards curves and for the (0, 0) encoding of O on Weierstrass curves" % len(rows),
+             expected="is_point_at_infinity() is true for the neutral element only (Edwards: (0, 1), not the order-2 point (0, -1))")
+    # point_at_infinity() builds that same element
+    fn2 = repo.func(mod, "EccPoint.point_at_infinity")
+    wrong = []
+    for kind, want in (("edwards", (0, 1)), ("weierstrass", (0, 0))):
+        seen = []
+
+        def m_pt(i, a, kw, st, node, seen=seen):
+            seen.append(tuple(a[:2]))
+            return i.new_obj(st, label="pt")
+        it = Interp(repo, max_depth=2, extra_models={PT + ".EccPoint": m_pt})
+        st = State()
+        me = it.new_obj(st, mod, cls, havoc=False)
+        curve = it.new_obj(st, label="curve", attrs={"is_edwards": kind == "edwards", "is_weierstrass": kind == "weierstrass", "is_montgomery": False})
+        st.heap[me.ident].update({"_curve": curve, "curve": kind})
+        it.run(mod, fn2, {}, self_obj=me, state=st)
+        if seen != [want]:
+            wrong.append("%s: EccPoint%r" % (kind, seen))
+    check.ob("K-pw", "K-pw|neutral.constructor", not wrong, mod.path, fn2.lineno,
+             extracted="; ".join(wrong) if wrong else "EccPoint(0, 1) on Edwards curves, EccPoint(0, 0) on Weierstrass curves",
+             expected="point_at_infinity() returns the neutral element of the curve model")
+
+
 def run(check, ctx):
     repo = ctx.repo
     from .c19_extra import point_ops
     point_ops(check, repo)
+    neutral_predicate_rows(check, repo)
     mod = repo.module("Crypto.PublicKey._point")
     # error codes compared in Python are the C macros
     cdb = ctx.cdb
